@@ -25,7 +25,7 @@
    configuration logic of conf/config.go; it is what Corr/CorrC04.v executes.  No proofs here. *)
 From Coq Require Import ZArith List String Bool.
 Import ListNotations.
-Open Scope string_scope.
+Local Open Scope string_scope.
 
 (* ------------------------------------------------------------------ outcomes *)
 Inductive out (A : Type) := POk (a : A) | PErr | PPanic.
@@ -428,16 +428,19 @@ Section Model.
     | X.Sem.Sem.Stop _ _ _ => PPanic
     end.
 
-  Definition unreachable1 {A B : Type} (_ : A) : out B := PPanic.
-  Definition unreachable2 {A B C : Type} (_ : A) (_ : B) : out C := PPanic.
-  Definition unreachable3 {A B C D : Type} (_ : A) (_ : B) (_ : C) : out D := PPanic.
+  (* stages that an API function never reaches are filled with harmless behaviours: their choice does
+     not influence the value of the pipeline (only the calls of the regenerated list are executed) *)
+  Definition idle1 {A : Type} (t : A) : out A := POk t.
+  Definition idle2 {A B : Type} (_ : A) (t : B) : out B := POk t.
+  Definition idle3 {A B C : Type} (_ : A) (_ : B) (t : C) : out C := POk t.
+  Definition refuse3 {A B C D : Type} (_ : A) (_ : B) (_ : C) : out D := PErr.
 
-  (* the stages of Eval / Run / Parse; the stages that Eval never reaches would panic if reached *)
+  (* the stages of Eval / Run / Parse *)
   Definition m_stages : stages :=
     mkStages unit unit (list Z) (list X.Syn.Tok.token) X.Syn.Ast.expr unit X.Syn.Ast.expr X.Base.Value.value X.Base.Value.value
-      tt tt (fun _ => false) unreachable2 unreachable1 m_lex m_parse unreachable2 (fun _ t => t) (fun _ => [])
-      unreachable2 unreachable2 (fun _ => false) (fun _ => false) unreachable1 unreachable1 unreachable1 unreachable1
-      unreachable3 (fun _ => X.Base.Value.VNil) unreachable3 (fun _ e => m_compile e) (fun _ p env => m_run p env)
+      tt tt (fun _ => false) idle2 (fun _ => POk tt) m_lex m_parse idle2 (fun _ t => t) (fun _ => [])
+      idle2 idle2 (fun _ => false) (fun _ => false) idle1 idle1 idle1 idle1
+      refuse3 (fun _ => X.Base.Value.VNil) idle3 (fun _ e => m_compile e) (fun _ p env => m_run p env)
       (fun _ => false).
 
   Definition m_eval_api (rt : rtable) (calls : list call) (input : list Z) (env : X.Base.Value.value) : ares X.Base.Value.value :=
@@ -493,9 +496,9 @@ Section Model.
     mkStages mopt mcfg (list Z) (list X.Syn.Tok.token) X.Syn.Ast.expr visk X.Syn.Ast.expr X.Base.Value.value X.Base.Value.value
       (mkMcfg EnvNone [] [] []) (mkMcfg EnvNone [] [] [])
       (fun o => match o with MOConstExpr _ => true | _ => false end) m_opt_apply m_config_check m_lex m_parse
-      unreachable2 (fun _ t => t) mc_vis unreachable2 m_visit (fun _ => false) (fun _ => false)
-      unreachable1 unreachable1 unreachable1 unreachable1 unreachable3 (fun _ => X.Base.Value.VNil) unreachable3
-      unreachable2 unreachable3 (fun _ => false).
+      idle2 (fun _ t => t) mc_vis idle2 m_visit (fun _ => false) (fun _ => false)
+      idle1 idle1 idle1 idle1 refuse3 (fun _ => X.Base.Value.VNil) idle3
+      idle2 refuse3 (fun _ => false).
 
   Fixpoint front_calls (cs : list call) : list call :=
     match cs with
@@ -526,3 +529,8 @@ Section Model.
   Definition predict_run (rt : rtable) : list oclass :=
     if guarded rt ApiRun StVMRun then [KOk; KErr] else [KOk; KErr; KPanic].
 End Model.
+
+(* the decoded call list of a regenerated table ([] when an entry is not recognised: the bridge
+   lemma of C04 demands recognition) *)
+Definition calls_of (l : list (string * string * string)) : list call :=
+  match decode_calls l with Some cs => cs | None => [] end.
